@@ -5,6 +5,7 @@ cd /verif
 IDS=${@:-$(ls seeded)}
 rm -rf /tmp/evidence.keep && cp -r /verif/evidence /tmp/evidence.keep
 for id in $IDS; do
+  [ -f /verif/seeded/$id/patch.diff ] || continue
   p=${id%%-*}
   git -C /repo apply /verif/seeded/$id/patch.diff 2>/tmp/apply.err || { echo "$id APPLY-FAILED $(head -1 /tmp/apply.err)"; git -C /repo checkout -- .; continue; }
   ./check $p > /tmp/recheck_$id.out 2>&1; rc=$?
